@@ -84,11 +84,14 @@ class Hook:
         if m.subset_constraints: ctx.dist("E1 subset constraints present")
         if any(m.G.is_scc_edge(*e) for e in m.G.edges()): ctx.dist("E1 graph has a cycle")
         if d:
+            cls.e1_reports += 1
+        if d and cls.e1_reports <= 3:      # leave room for concrete failing inputs found by E2
             ctx.report("E1 correspondence broken: LP of kFlowDecompCycles differs from WalkEncRows.encode_kfdc: " + "; ".join(d[:3]),
                        {"kind": "e1", "class": "kFlowDecompCycles", "args": describe(args), "diff": d}, concrete=False)
             cls.e1_broken = True
 
     e1_broken = False
+    e1_reports = 0
 
 
 def describe(args):
@@ -297,14 +300,14 @@ def scaled(G, c, as_float=True):
 # ----------------------------------------------------------------------------------------- run
 def run(ctx):
     import flowpaths as fp
-    lpdump.install(); Hook.install(); Hook.ctx = ctx; Hook.e1_broken = False
+    lpdump.install(); Hook.install(); Hook.ctx = ctx; Hook.e1_broken = False; Hook.e1_reports = 0
     ctx.rule = ("digraphs with cycles (<= 5 nodes, <= 9 edges; 80% with a cycle; self-loops, several sources/sinks) with flows = "
                 "superpositions of 1-3 weighted walks (int / dyadic float); kFlowDecompCycles with random k, ignore lists, subset "
                 "constraints (coverage 1 / 0.5 / 0.75), the 64 safety option vectors, given weights; MinFlowDecompCycles incl. guessed "
                 "weights / min-gen-set lower bound; tiny instances (<= 6 edges, flows <= 3) against the exhaustive search; scale factors "
                 "1/4 1/2 2 2.5 4; non-trivial = LP with >= 2 layers or a cycle, or a solved instance with >= 2 walks")
     # ---- A: stand-alone kFlowDecompCycles: E1 on all option vectors, E2 on every solution
-    nA = ctx.budget(90, 4000)
+    nA = ctx.budget(150, 3000)
     for i in range(nA):
         rng = ctx.rng("kfdc", i)
         G, walks, ws, is_int = gen2.rand_flow_cyclic(rng)
@@ -342,7 +345,7 @@ def run(ctx):
                  sample={"edges": describe(args)["edges"], "k": k, "opts": describe(args)["optimization_options"], "lp_rows": rows})
 
     # ---- B: MinFlowDecompCycles: E1 per k tried, E4 search, E2 solution, minimality on tiny instances
-    nB = ctx.budget(44, 2000)
+    nB = ctx.budget(70, 1500)
     for i in range(nB):
         rng = ctx.rng("mfdc", i)
         tiny = rng.random() < 0.7
@@ -373,7 +376,7 @@ def run(ctx):
                                                                      "walks": res["k"], "ks": [r["k"] for r in res["log"]]})
 
     # ---- C: scale invariance (float weights): same solvability, same number of walks
-    nC = ctx.budget(10, 400)
+    nC = ctx.budget(16, 300)
     for i in range(nC):
         rng = ctx.rng("scale", i)
         G, walks, ws = tiny_instance(rng)
@@ -412,6 +415,28 @@ def run(ctx):
 
     # ---- D: the witness of Props/C04.v (WalkExamples.loop_inst) replayed on the implementation
     witness_replay(ctx)
+
+    # ---- E: the sibling encoder encode_kpcc (kPathCoverCycles) is kept tied as well (used by C09 / C01)
+    nE = ctx.budget(30, 600)
+    for i in range(nE):
+        rng = ctx.rng("kpcc", i)
+        G, walks, ws, _ = gen2.rand_flow_cyclic(rng)
+        ign = gen2.rand_ignore(rng, G) if rng.random() < 0.3 else []
+        cons = gen2.rand_subset_constraints(rng, walks) if rng.random() < 0.4 else []
+        o = dict(gen2.rand_walk_opts(rng))
+        if rng.random() < 0.2: o["allow_empty_walks"] = True
+        args = dict(G=G, k=rng.randint(1, 3), subset_constraints=cons, elements_to_ignore=ign, optimization_options=o,
+                    solver_options={"threads": THREADS})
+        lpdump.reset()
+        try:
+            m = fp.kPathCoverCycles(**args)
+        except ValueError:
+            ctx.dist("kpcc ctor ValueError"); continue
+        d, impl = e1cyc.compare(ctx, "E1_kPathCoverCycles_LP", m, e1cyc.kpcc_request(m, args))
+        if d:
+            ctx.report("E1 correspondence broken: LP of kPathCoverCycles differs from WalkEncRows.encode_kpcc: " + "; ".join(d[:3]),
+                       {"kind": "e1", "class": "kPathCoverCycles", "edges": [list(e) for e in G.edges()], "k": args["k"], "opts": o, "diff": d}, concrete=False)
+        ctx.case(["kpcc", sorted(map(list, G.edges())), args["k"], sorted(o.items()), cons, ign], nontrivial=True)
 
 
 def witness_replay(ctx):
